@@ -38,7 +38,7 @@ CHECKS = {
     "C09": ("process monitor on every pavexc execution: exit status, panic text, watchdog, checksums+mtimes of the SDK before/after",
             "Held on every pavexc execution of every mode except the listed known findings: exit status in {0,1}, diagnostic on failure, SDK byte-for-byte untouched on failure, termination within the watchdog. 'Never hangs' is restated as bounded progress.",
             "3.4 C09", E2E_NOTE),
-    "C10": ("process monitor: K independent pavexc processes x cache histories per accepted application; sha256/mtime/inode comparison; --check vs normal run; strace of writes (thorough)",
+    "C10": ("process monitor: K independent pavexc processes x cache / output-directory / workspace-manifest histories per accepted application; sha256/mtime/inode comparison; --check vs normal run; strace of writes (thorough); in-process history monitor on the write-if-changed primitive",
             "Held on K applications x runs: identical bytes across processes and cache states, no file touched on re-run, --check exit code consistent with what a normal run would change and never writes.",
             "3.4 C10", E2E_NOTE),
     "C11": ("model-based history monitor: real cookie -> session -> ops -> finalize -> cookie loop vs a two-map reference model, compared after every operation and request",
